@@ -2565,11 +2565,12 @@ fn generate_expression(
                     // Modifier removing cast
                     let ty = generate_type_id(*type_id, context)?;
                     ast::Expression::Cast(Box::new(ty), Box::new(Located::none(inner)))
-                } else if let (ir::TypeLayer::Struct(_), ir::TypeLayer::Struct(to_id)) =
+                } else if let (ir::TypeLayer::Struct(from_id), ir::TypeLayer::Struct(to_id)) =
                     (input_tyl, unmod_tyl)
                 {
                     // A struct is cast to the struct it derives from
-                    // The members of the base are the first members of the derived struct under the same names
+                    // The members of the base are the first members of the derived struct
+                    // They are read under the names the derived struct gives them
                     // The source is named once for each member so has to be free of side effects
                     let no_side_effects = matches!(
                         **expr,
@@ -2589,7 +2590,7 @@ fn generate_expression(
                     for member_index in 0..member_count {
                         let member_name = context
                             .name_map
-                            .get_struct_member_name(context.module, to_id, member_index as u32)
+                            .get_struct_member_name(context.module, from_id, member_index as u32)
                             .to_string();
                         // Arrays can not be initialized from another array so are built from their elements
                         fn element_initializer(
